@@ -27,8 +27,10 @@ package wmpt
 //@   pure
 //@ func (Node).ToCollect returns (d)
 //@   pure
+// C11: computing a hash never marks a node as saved (dirty flags are outside the frame): a node is
+// clean only once Save has put it into a batch, so reading Root() cannot make Commit skip it.
 //@ func (Node).CalcHash returns (h)
-//@   assigns heap(routingNode.hash), heap(routingNode.dirty), heap(shortNode.hash), heap(shortNode.dirty), heap(valueNode.hash), heap(valueNode.dirty)
+//@   assigns heap(routingNode.hash), heap(shortNode.hash), heap(valueNode.hash)
 
 //@ func (*routingNode).Hash returns (h)
 //@   props C15
@@ -68,18 +70,18 @@ package wmpt
 //@   ensures w == W0(iface(n))                                   #reports-own-weight
 
 //@ func (*routingNode).CalcHash returns (h)
-//@   props C15
+//@   props C15 C11
 //@   mode wrap
-//@   assigns heap(routingNode.hash), heap(routingNode.dirty), heap(shortNode.hash), heap(shortNode.dirty), heap(valueNode.hash), heap(valueNode.dirty)
+//@   assigns heap(routingNode.hash), heap(shortNode.hash), heap(valueNode.hash)
 //@   loop 1 invariant fresh(m)                  #buffer-is-local
 //@ func (*valueNode).CalcHash returns (h)
-//@   props C15
+//@   props C15 C11
 //@   mode wrap
-//@   assigns v.hash, v.dirty
+//@   assigns v.hash
 //@ func (*shortNode).CalcHash returns (h)
-//@   props C15
+//@   props C15 C11
 //@   mode wrap
-//@   assigns heap(routingNode.hash), heap(routingNode.dirty), heap(shortNode.hash), heap(shortNode.dirty), heap(valueNode.hash), heap(valueNode.dirty)
+//@   assigns heap(routingNode.hash), heap(shortNode.hash), heap(valueNode.hash)
 //@ func (*hashNode).CalcHash returns (h)
 //@   props C15
 //@   assigns nothing
@@ -89,14 +91,40 @@ package wmpt
 
 // Serialize of each kind: what DeserializeNode accepts re-encodes without panicking.
 //@ func (*routingNode).Serialize returns (data, err)
-//@   props C15
+//@   props C15 C11
 //@   mode wrap
+//@   assigns r.toCollect, heap(routingNode.hash), heap(shortNode.hash), heap(valueNode.hash)
 //@ func (*valueNode).Serialize returns (data, err)
-//@   props C15
+//@   props C15 C11
 //@   mode wrap
+//@   assigns v.hash
 //@ func (*shortNode).Serialize returns (data, err)
-//@   props C15
+//@   props C15 C11
 //@   mode wrap
+//@   assigns s.toCollect, heap(routingNode.hash), heap(shortNode.hash), heap(valueNode.hash)
+
+// Save puts the node into the batch under its hash; only then is the node clean.
+//@ func (*routingNode).Save returns (err)
+//@   props C11
+//@   mode wrap
+//@   requires batcher != nil
+//@   assigns r.dirty, r.toCollect, heap(routingNode.hash), heap(shortNode.hash), heap(valueNode.hash)
+//@   ensures err == nil ==> old(r.dirty) && !r.dirty                         #saved-node-is-clean
+//@   ensures err != nil ==> r.dirty == old(r.dirty)                          #unsaved-node-stays-dirty
+//@ func (*valueNode).Save returns (err)
+//@   props C11
+//@   mode wrap
+//@   requires batcher != nil
+//@   assigns v.dirty, v.hash
+//@   ensures err == nil ==> old(v.dirty) && !v.dirty                         #saved-node-is-clean
+//@   ensures err != nil ==> v.dirty == old(v.dirty)                          #unsaved-node-stays-dirty
+//@ func (*shortNode).Save returns (err)
+//@   props C11
+//@   mode wrap
+//@   requires batcher != nil
+//@   assigns s.dirty, s.toCollect, heap(routingNode.hash), heap(shortNode.hash), heap(valueNode.hash)
+//@   ensures err == nil ==> old(s.dirty) && !s.dirty                         #saved-node-is-clean
+//@   ensures err != nil ==> s.dirty == old(s.dirty)                          #unsaved-node-stays-dirty
 //@ func (*hashNode).Serialize returns (data, err)
 //@   props C15
 //@ func (*nilNode).Serialize returns (data, err)
